@@ -22,6 +22,12 @@ func nmSlice() []int {
 func nmStr(s string) string {
 	return s
 }
+func nmSplit() ([]int, []int) {
+	return []int{1}, []int{2, 3}
+}
+func nmPair() (int, int) {
+	return 1, 2
+}
 var nmI int = 3
 var nmS string = "abc"
 var nmB bool = true
@@ -270,6 +276,23 @@ var NearMissLines = []string{
 	`*/`,
 	`import "strings"`,
 	`import x "h1.tsh"`,
+	// declarations with several names, an explicit type and ONE multi-value call (or too few / too many values)
+	`var x94, x95 []int = nmSplit()`,
+	`var x96, x97 []string = nmSplit()`,
+	`var x98, x99 int = nmPair()`,
+	`var x100, x101 int = nmTwo()`,
+	`var x102, x103, x104 []int = nmSplit()`,
+	`var x105 []int = nmSplit()`,
+	`var x106, x107 []int = nmSplit(), nmSplit()`,
+	`var x108, x109 []int = nmSlice()`,
+	`var x110, x111 []int = nil`,
+	`var x112 []int = nil`,
+	`nmL = nil`,
+	`nmL, nmLS = nil, nil`,
+	`x113, x114 := nmSplit()` + "\nx113, x114 = nmSplit()",
+	`x115, x116 := nmSplit()` + "\nx115, x116 = nmSlice()",
+	`var x117, x118 string = nmStr("a")`,
+	`var x119, x120 bool = nmTwo()`,
 	// program names of app calls that are odd strings: blank, blanks, a tab, quotes, a path with blanks
 	`@" "()`,
 	`@"  "("a")`,
